@@ -38,6 +38,10 @@ class StreamNode(ConfigList):
     @namespace('ayns')
     def on_premerge_impl(self, path, into):
         self.clear()
+        if not self.builder.stages:
+            # nothing but files without any document: as much as an empty mapping
+            from .dict import ConfigDict
+            self.builder.stages.append(ConfigDict({}, **self._get_child_kwargs()))
         self.builder.flatten()
         self.append(self.builder.stages[0])
         return self.builder.stages[0].ayns.on_premerge(path, into)
